@@ -375,6 +375,7 @@ static AddOutcome do_add(Exec& ex, Crystal_Array* arr, ArrayModel* m, const Crys
     ret = Crystal_AddCrystal(nullptr, arr, ep);
   } else {
     OwnCrystal oc(*d);
+    oc.cs.volume = 777.25;   // the collection must store the volume it recomputes, not whatever the caller's struct says
     ret = Crystal_AddCrystal(&oc.cs, arr, ep);
     oc.scribble();
   }
@@ -550,6 +551,18 @@ void Exec::run_op(const Op& op) {
       }
       else if (op.fn == "xrl_strdup") { char* c = xrl_strdup(op.s.c_str()); failed_sentinel = !c; if (c) { g.str(c); xrlFree(c); } }
       else if (op.fn == "xrl_strndup") { char* c = xrl_strndup(op.s.c_str(), (size_t)op.i[0]); failed_sentinel = !c; if (c) { g.str(c); xrlFree(c); } }
+      else if (op.fn == "release_nulls") {
+        // every release / inspection function that documents (or checks for) a NULL argument
+        xrl_error* none = nullptr;
+        xrl_error_free(nullptr);
+        xrl_clear_error(nullptr);
+        xrl_clear_error(&none);
+        Crystal_Free(nullptr);
+        Crystal_ArrayFree(nullptr);
+        xrlFree(nullptr);
+        g.i32(xrl_error_copy(nullptr) == nullptr);
+        g.i32(xrl_error_matches(nullptr, XRL_ERROR_MEMORY));
+      }
       else if (op.fn == "xrl_error_new") {
         xrl_error* c = xrl_error_new((xrl_error_code)(op.i[0] % 6), "%s: %d of %g", op.s.c_str(), op.i[0], op.d[0]);
         failed_sentinel = !c;
